@@ -77,6 +77,13 @@ TReturn == /\ IsEv("return") /\ pc \in {"returned", "rejected"}
                                       /\ Ev.ltimes = LoadedTimes
                                       /\ Ev.luids = LoadedUids
                                       /\ Ev.range = <<0, Len(frames) - 1>>)
+           \* the documented accessors of the returned Solution (DynamicsData.time, the frame cursor addressed from
+           \* the front and from the back, closest_solve_step; the harness folds voltage / phase_difference /
+           \* time_slice / closest_time / mean_voltage into ltcum) are projections of the same frames and records
+           /\ ((result = "solution" /\ ~Coarse /\ Ev.acc = 1) =>
+                                      /\ Ev.ltcum = LoadedCum
+                                      /\ (Ev.cur = 1 => Ev.lcur = CursorView)
+                                      /\ Ev.lclosest = [n \in 1..Len(LoadedTimes) |-> n - 1])
            /\ pc' = "done"
            /\ UNCHANGED <<cfg, fs, serial, stage, i, t, applied, tapplied, buf, bstep, frames, wr,
                           cancelled, err, result, faults, simdts, tdts, flog>>
